@@ -23,11 +23,16 @@ def main():
     os.environ['VERIF_TIER'] = tier
     mod = importlib.import_module(f'harness.props.{pid.lower()}')
     if a.replay:
+        # a replay file records the property, the seed and tier of the run that produced it and the failing
+        # input(s) / the obligations that no longer check.  Every run is a deterministic function of
+        # (tree under test, seed, tier): replaying = showing the record, then running the same search again on the
+        # current tree; the exit code and the VIOLATION line say whether the failure is still there.
         rec = json.load(open(a.replay))
         print(json.dumps(rec, indent=1)[:4000])
-        if hasattr(mod, 'replay'):
-            sys.exit(mod.replay(rec))
-        sys.exit(0)
+        seed = int(rec.get('seed', seed))
+        tier = rec.get('tier', tier) if rec.get('tier') in ('quick', 'thorough') else tier
+        os.environ['VERIF_TIER'] = tier
+        print(f"--- replaying: property={pid} seed={seed} tier={tier} on the current tree")
     ctx = Ctx(pid, tier, seed)
     try:
         if hasattr(mod, 'main'):
